@@ -73,15 +73,17 @@ Proof.
 Qed.
 
 (* EXEC with a modified watched key: null reply, nothing runs, connection reset *)
-Theorem exec_watch_abort : forall c args now s b q,
-  c_prepare (get_conn c s) = true -> c_error (get_conn c s) = false -> c_queue (get_conn c s) = b :: q ->
+(* for every queue, the empty one included (the code used to answer *0 on an empty queue before it
+   looked at the watch flags; repaired, see known_findings.txt) *)
+Theorem exec_watch_abort : forall c args now s,
+  c_prepare (get_conn c s) = true -> c_error (get_conn c s) = false ->
   existsb (fun kv => snd kv) (c_watch (get_conn c s)) = true ->
   exists s', serve c n_EXEC args now s = Some (s', [WNullBulk]) /\ s_db s' = s_db s /\ get_conn c s' = conn_new.
 Proof.
-  intros c args now s b q Hp He Hq Hw. unfold serve. cbv zeta.
+  intros c args now s Hp He Hw. unfold serve. cbv zeta.
   change (bytes_eqb n_EXEC n_MULTI) with false. change (bytes_eqb n_EXEC n_DISCARD) with false.
   change (bytes_eqb n_EXEC n_WATCH) with false. change (bytes_eqb n_EXEC n_UNWATCH) with false.
-  change (bytes_eqb n_EXEC n_EXEC) with true. cbv iota. rewrite Hp, He, Hq, Hw. cbn [negb].
+  change (bytes_eqb n_EXEC n_EXEC) with true. cbv iota. rewrite Hp, He, Hw. cbn [negb].
   unfold finish_cmd. cbn [has_err existsb orb andb].
   eexists. split; [reflexivity|].
   rewrite apply_signals_nothing by reflexivity.
@@ -103,7 +105,7 @@ Proof.
   intros c args now s b q Hp He Hq Hw. unfold serve. cbv zeta.
   change (bytes_eqb n_EXEC n_MULTI) with false. change (bytes_eqb n_EXEC n_DISCARD) with false.
   change (bytes_eqb n_EXEC n_WATCH) with false. change (bytes_eqb n_EXEC n_UNWATCH) with false.
-  change (bytes_eqb n_EXEC n_EXEC) with true. cbv iota. rewrite Hp, He, Hq, Hw. cbn [negb].
+  change (bytes_eqb n_EXEC n_EXEC) with true. cbv iota. rewrite Hp, He, Hw, Hq. cbn [negb].
   destruct (run_queue (b :: q) now (s_db s)) as [[acts d']|]; [|reflexivity].
   eexists. split; [reflexivity|].
   unfold put_conn, get_conn. cbn [s_db s_conns]. rewrite apply_signals_db. cbn [s_db].
